@@ -79,6 +79,7 @@ type c03Fun struct {
 	Params []c03Field // empty = unit parameter
 	Unit   bool       // unit result
 	Res    c03Ty
+	Lam    bool // the whole body is a lambda: the result is a function value (func(int) string)
 }
 type c03Set struct {
 	Group  bool // records 0 and 1 are declared as one `type … and …` group, 0 referring forward to 1
@@ -147,6 +148,10 @@ func c03GenSet(rng *Rng, idx int) *c03Set {
 		}
 		f.Unit = rng.Chance(1, 3)
 		f.Res = base[rng.Intn(3)]
+		if !f.Unit && rng.Chance(1, 4) {
+			f.Lam = true
+			f.Res = c03Ty{"int->string", "func(int) string", "", ""}
+		}
 		s.Funs = append(s.Funs, f)
 	}
 	for i := 0; i < rng.Intn(3); i++ {
@@ -198,7 +203,9 @@ func (s *c03Set) folang() string {
 		for _, p := range f.Params {
 			ps += fmt.Sprintf(" (%s:%s)", p.Name, p.Ty.Fo)
 		}
-		if f.Unit {
+		if f.Lam {
+			fmt.Fprintf(&b, "let %s%s =\n  fun (q:int) -> \"lam\"\n\n", f.Name, ps)
+		} else if f.Unit {
 			fmt.Fprintf(&b, "let %s%s =\n  frt.Println \"%s\"\n\n", f.Name, ps, f.Name)
 		} else {
 			fmt.Fprintf(&b, "let %s%s =\n  %s\n\n", f.Name, ps, lit[f.Res.Fo])
@@ -453,7 +460,10 @@ func (s *c03Set) client() (string, []string) {
 		for _, p := range f.Params {
 			args = append(args, p.Ty.Val)
 		}
-		if f.Unit {
+		if f.Lam {
+			fmt.Fprintf(&b, "\tfmt.Println(%q, %s(%s)(5))\n", f.Name, f.Name, strings.Join(args, ", "))
+			exp = append(exp, f.Name+" lam")
+		} else if f.Unit {
 			fmt.Fprintf(&b, "\t%s(%s)\n", f.Name, strings.Join(args, ", "))
 			exp = append(exp, f.Name)
 		} else {
@@ -477,6 +487,7 @@ type c03Ext struct {
 	Name    string
 	Params  []c03Ty
 	Generic bool // first parameter is T (explicit type argument <int>)
+	Twin    bool // Pkg "_" only: package extpk declares a function of the same name with one more (leading string) parameter
 }
 
 func c03GenExt(rng *Rng, idx int) *c03Ext {
@@ -487,6 +498,7 @@ func c03GenExt(rng *Rng, idx int) *c03Ext {
 		e.Params = append(e.Params, base[rng.Intn(3)])
 	}
 	e.Generic = rng.Chance(1, 3)
+	e.Twin = e.Pkg == "_" && !e.Generic && rng.Chance(1, 3)
 	return e
 }
 
@@ -524,6 +536,23 @@ func (e *c03Ext) goImpl() string {
 		return fmt.Sprintf("func %s%s(%s) string { return fmt.Sprint(%q, reflect.TypeOf((*T)(nil)).Elem(), \";\", %s) }\n", e.Name, g, strings.Join(ps, ", "), e.Name+":", strings.Join(as, ", \"|\", "))
 	}
 	return fmt.Sprintf("func %s%s(%s) string { return fmt.Sprint(%q, %s) }\n", e.Name, g, strings.Join(ps, ", "), e.Name+":", strings.Join(as, ", \"|\", "))
+}
+
+func (e *c03Ext) twinSig() string {
+	ps := []string{"string"}
+	for _, p := range e.Params {
+		ps = append(ps, p.Fo)
+	}
+	return fmt.Sprintf("  let %s: %s->string\n", e.Name, strings.Join(ps, "->"))
+}
+
+func (e *c03Ext) twinImpl() string {
+	ps, as := []string{"z string"}, []string{"z"}
+	for i, p := range e.Params {
+		ps = append(ps, fmt.Sprintf("a%d %s", i, p.Go))
+		as = append(as, fmt.Sprintf("a%d", i))
+	}
+	return fmt.Sprintf("func %s(%s) string { return fmt.Sprint(%q, %s) }\n", e.Name, strings.Join(ps, ", "), e.Name+"~twin:", strings.Join(as, ", \"|\", "))
 }
 
 // Folang test function exercising every call form; expected lines
@@ -565,6 +594,11 @@ func (e *c03Ext) foTest() (string, []string) {
 			fmt.Fprintf(&b, "  frt.Println (pany %s)\n", strings.Join(args[1:], " "))
 			exp = append(exp, wantAny)
 		}
+	}
+	if e.Twin {
+		// the function of the same name in package extpk is another function
+		fmt.Fprintf(&b, "  frt.Println (extpk.%s \"z\" %s)\n", e.Name, strings.Join(args, " "))
+		exp = append(exp, e.Name+"~twin:z|"+strings.Join(prn, "|"))
 	}
 	// piped: last argument on the left
 	if n >= 1 {
@@ -687,6 +721,12 @@ func runC03(c *Ctx) {
 				piU.WriteString(e.sig())
 				impl.WriteString(e.goImpl())
 				hasU = true
+				if e.Twin {
+					piP.WriteString(e.twinSig())
+					implPk.WriteString(e.twinImpl())
+					hasP = true
+					c.Count("ext_same_name_in_two_packages")
+				}
 			} else {
 				piP.WriteString(e.sig())
 				implPk.WriteString(e.goImpl())
@@ -696,6 +736,22 @@ func runC03(c *Ctx) {
 			tests.WriteString(t)
 			fmt.Fprintf(&mainb, "\text%d()\n", e.Idx)
 			expect = append(expect, exp...)
+		}
+		{
+			// one generic record at two different instantiations inside one type: a field of a type
+			// group whose arguments are defined later in the group, and a foreign function
+			// Bx<T>->Bx<U>->string in every call form
+			k := bi
+			fmt.Fprintf(&fo, "type Bx%d<T> = {V: T}\n\ntype Hold%d = {Pair: Bx%d<Lb%d>*Bx%d<Wt%d>; N: int}\nand Lb%d = {L: string}\nand Wt%d = {W: int}\n\n", k, k, k, k, k, k, k, k)
+			fmt.Fprintf(&piU, "  let Comb%d<T, U>: Bx%d<T>->Bx%d<U>->string\n", k, k, k)
+			hasU = true
+			fmt.Fprintf(&impl, "func Comb%d[T any, U any](a Bx%d[T], b Bx%d[U]) string { return fmt.Sprint(\"Comb:\", a.V, \"|\", b.V) }\n", k, k, k)
+			fmt.Fprintf(&tests, "let comb%d (a:Bx%d<int>) (b:Bx%d<string>) =\n  frt.Println (Comb%d a b)\n  b |> Comb%d a |> frt.Println\n  let pc = Comb%d a\n  frt.Println (pc b)\n\n", k, k, k, k, k, k)
+			fmt.Fprintf(&mainb, "\tcomb%d(Bx%d[int]{V: 1}, Bx%d[string]{V: \"s\"})\n", k, k, k)
+			expect = append(expect, "Comb:1|s", "Comb:1|s", "Comb:1|s")
+			fmt.Fprintf(&mainb, "\tfmt.Println(Hold%d{Pair: frt.NewTuple2(Bx%d[Lb%d]{V: Lb%d{L: \"x\"}}, Bx%d[Wt%d]{V: Wt%d{W: 3}}), N: 1})\n", k, k, k, k, k, k, k)
+			expect = append(expect, "{{{{x}} {{3}}} 1}")
+			c.Count("generic_record_at_two_instantiations")
 		}
 		if hasU {
 			fo.WriteString(piU.String() + "\n")
